@@ -64,6 +64,19 @@ class C19(Prop):
                     if a != b:
                         fails.append({'input': l + ' (L=%d)' % L, 'expected': 'model: ' + b[:300], 'observed': a[:300], 'why': 'model and implementation differ at this limit'})
                         break
+            # describing a decoded tree completes: whatever the layout of the description, the content of the innermost text leaf appears in it
+            mark = b'zq9xv'
+            dl = []
+            for kind in ('tag', 'arr', 'arrI', 'mapK', 'mapV', 'mapI'):
+                for d in sorted({1, max(L // 2, 1), max(L // 2 + 1, 1), max(L - 1, 1), L}):
+                    dl.append('DESC %s %s' % (gen.hexs(nest(kind, d, bytes([0x60 + len(mark)]) + mark)), mark.hex()))
+                    if L >= 2: dl.append('DESC %s %s' % (gen.hexs(nest(kind, max(d - 1, 0), b'\x7f' + bytes([0x60 + len(mark)]) + mark + b'\xff')), mark.hex()))
+            do, rc, _ = core.run_lines(hb['exe'], dl)
+            for l, o in zip(dl, do):
+                ctx.count(l[:200] + ' (L=%d)' % L, o); ctx.bump('describe')
+                if not (o.startswith('described ') and o.endswith('marker=1')):
+                    fails.append({'input': l + ' (L=%d)' % L, 'expected': 'described ... marker=1', 'observed': o, 'why': 'cbor_describe of a tree nested within the limit did not print its innermost leaf'})
+            if rc != 0: fails.append({'input': 'DESC (L=%d)' % L, 'expected': 'results', 'observed': 'implementation aborted', 'why': 'describe of a nested tree aborted'})
             ctx.bump('limit_%d' % L, len(bufs))
         return fails[:20]
 
@@ -73,6 +86,9 @@ class C19(Prop):
         L = int(m.group(1)) if m else 2048
         hb = core.build_harness('asan', overrides={'CBOR_MAX_STACK_SIZE': str(L)})
         w = l.split(); b = bytes.fromhex(w[1]) if w[1] != '-' else b''
+        if w[0] == 'DESC':
+            o, rc, _ = core.run_lines(hb['exe'], [' '.join(w[:3])])
+            return [] if rc == 0 and o and o[0].endswith('marker=1') else [dict(rp['failure'], observed=o[0] if o else 'abort')]
         return dec.run(ctx, [b], L=L, exe=hb['exe'], tag=' (L=%d)' % L)
 
 
